@@ -52,7 +52,6 @@ structure C08Inv (s : RegSt) (σ : C08St) : Prop where
   dead : σ.spec.dead = s.dead
   pend : σ.pend = s.pend
   acted : σ.acted = s.acted
-  busy : σ.busy = s.lock
 
 theorem live_eq {w : Wiring} (hw : WellWired08 w) {s : RegSt} {σ : C08St} (hi : C08Inv s σ) (k : Nat) :
     σ.spec.live k = s.lookupRunning w k := by
@@ -66,7 +65,7 @@ theorem alive_eq {w : Wiring} (hw : WellWired08 w) {s : RegSt} {σ : C08St} (hi 
 
 theorem inv_done {s : RegSt} {σ : C08St} (hi : C08Inv s σ) (o : Nat) (reg' : List (Nat × Nat)) (sp : Spec08) (r : RRes)
     (hreg : ∀ k, sp.reg k = rget reg' k) (hdead : sp.dead = s.dead) : C08Inv (s.finish o reg' r) (σ.done o sp r) := by
-  refine ⟨hreg, hdead, ?_, ?_, hi.busy⟩
+  refine ⟨hreg, hdead, ?_, ?_⟩
   · simp [C08St.done, RegSt.finish, hi.pend]
   · simp [C08St.done, RegSt.finish, hi.acted]
 
@@ -85,7 +84,7 @@ theorem c08_step {w : Wiring} (hw : WellWired08 w) {s s' : RegSt} {σ : C08St} {
           ∃ σ', monC08.step σ (.rbegin o op') = some σ' ∧ C08Inv s' σ' := by
         intro op' hne hs'
         subst hs'
-        refine ⟨{ σ with pend := σ.pend ++ [(o, op')] }, ?_, ⟨hi.reg, hi.dead, by simp [hi.pend], hi.acted, hi.busy⟩⟩
+        refine ⟨{ σ with pend := σ.pend ++ [(o, op')] }, ?_, ⟨hi.reg, hi.dead, by simp [hi.pend], hi.acted⟩⟩
         simp only [monC08, hfp, hfa, hc.1, hc.2]
         cases op' <;> simp
         all_goals (try (rename_i k; exact absurd rfl (hne k)))
@@ -100,8 +99,7 @@ theorem c08_step {w : Wiring} (hw : WellWired08 w) {s s' : RegSt} {σ : C08St} {
       | none => simp [hp] at hs
       | some op =>
         simp only [hp] at hs
-        have hbusy : σ.busy.isSome = false := by rw [hi.busy]; simpa using hlock
-        simp only [monC08, hbusy, hfp, hp]
+        simp only [monC08, hfp, hp]
         cases op <;> simp only [RegSt.effect] at hs
         case fromRegistry k =>
           cases hl : s.lookupRunning w k with
@@ -166,37 +164,33 @@ theorem c08_step {w : Wiring} (hw : WellWired08 w) {s s' : RegSt} {σ : C08St} {
     split at hs
     · simp at hs
     · rename_i hlock
-      have hbusy : σ.busy.isSome = false := by rw [hi.busy]; simpa using hlock
       cases hp : s.findPend o with
       | none => simp [hp] at hs
       | some op =>
         simp only [hp] at hs
-        simp only [monC08, hbusy, hfp, hp]
+        simp only [monC08, hfp, hp]
         cases op <;> simp at hs
         case fromRegistry k =>
           obtain ⟨hnone, rfl⟩ := hs
           have hl : (σ.spec.live k).isNone = true := by rw [live_eq hw hi]; simp [hnone]
-          refine ⟨{ (σ.done o (σ.spec.set k (some i)) (.inst i)) with busy := some o },
-            by simp [Spec08.spawn, hl], ?_⟩
+          refine ⟨σ.done o (σ.spec.set k (some i)) (.inst i), by simp [Spec08.spawn, hl], ?_⟩
           have := inv_done hi o (rset s.reg k i) (σ.spec.set k (some i)) (.inst i)
             (by intro k'; simp only [Spec08.set, rget_rset]; split <;> simp [hi.reg k']) hi.dead
-          exact ⟨this.reg, this.dead, this.pend, this.acted, rfl⟩
+          exact ⟨this.reg, this.dead, this.pend, this.acted⟩
         case setup k =>
           obtain ⟨hnone, rfl⟩ := hs
           have hl : (σ.spec.live k).isNone = true := by rw [live_eq hw hi]; simp [hnone]
-          refine ⟨{ (σ.done o (σ.spec.set k (some i)) .unit) with busy := some o },
-            by simp [Spec08.spawn, hl], ?_⟩
+          refine ⟨σ.done o (σ.spec.set k (some i)) .unit, by simp [Spec08.spawn, hl], ?_⟩
           have := inv_done hi o (rset s.reg k i) (σ.spec.set k (some i)) .unit
             (by intro k'; simp only [Spec08.set, rget_rset]; split <;> simp [hi.reg k']) hi.dead
-          exact ⟨this.reg, this.dead, this.pend, this.acted, rfl⟩
+          exact ⟨this.reg, this.dead, this.pend, this.acted⟩
   | rret o r =>
     simp only [rstep] at hs
     split at hs
     · rename_i hf
       simp at hs; subst hs
-      refine ⟨{ σ with acted := σ.acted.filter (fun p => p.1 != o),
-                       busy := (if σ.busy = some o then none else σ.busy) }, ?_,
-        ⟨hi.reg, hi.dead, hi.pend, by simp [hi.acted], by simp [hi.busy]⟩⟩
+      refine ⟨{ σ with acted := σ.acted.filter (fun p => p.1 != o) }, ?_,
+        ⟨hi.reg, hi.dead, hi.pend, by simp [hi.acted]⟩⟩
       simp only [monC08, hfa, hf, if_true]
     · simp at hs
   | rsync op r =>
@@ -205,15 +199,17 @@ theorem c08_step {w : Wiring} (hw : WellWired08 w) {s s' : RegSt} {σ : C08St} {
       by_cases hr : r = .prev (if s.lock.isSome then none else s.lookupRunning w k)
       · rw [if_pos hr] at hs; simp at hs; subst hs
         refine ⟨σ, ?_, hi⟩
-        simp only [monC08, hi.busy, live_eq hw hi]
-        rw [if_pos hr]
+        simp only [monC08, live_eq hw hi]
+        by_cases hl : s.lock.isSome = true
+        · simp [hl] at hr; simp [hr]
+        · simp [hl] at hr; simp [hr]
       · rw [if_neg hr] at hs; simp at hs
   | term i =>
     simp only [rstep] at hs; simp at hs; subst hs
-    exact ⟨_, rfl, ⟨hi.reg, by simp [hi.dead], hi.pend, hi.acted, hi.busy⟩⟩
+    exact ⟨_, rfl, ⟨hi.reg, by simp [hi.dead], hi.pend, hi.acted⟩⟩
 
 theorem c08_init : C08Inv RegSt.init monC08.init :=
-  ⟨fun _ => rfl, rfl, rfl, rfl, rfl⟩
+  ⟨fun _ => rfl, rfl, rfl, rfl⟩
 
 theorem c08_run {w : Wiring} (hw : WellWired08 w) :
     ∀ (ls : List RLabel) (s s' : RegSt) (σ : C08St), C08Inv s σ → rrun w s ls = some s' →
